@@ -516,6 +516,8 @@ ModelEvent(h, st) ==
                    hdr |-> ModelHdr, src_hdr |-> ModelHdr])
      [] st.call = "rt_tsv" ->
           IF IsEmptyTable(pre) \/ ~TsvExportable(pre, a.header_key)
+             \/ (a.save_via = "cli" /\ a.header_key # "" /\ ~\A k \in 1..Len(pre.obs) :
+                     \E e \in RowAt(pre, "observation", k) : e[1] = a.header_key /\ e[2] = "l" /\ Len(e[3]) > 0)
           THEN Ev(st, h, h, "error", [wrote |-> "refused", hdr |-> ModelHdr, src_hdr |-> ModelHdr])
           ELSE Ev(st, h, Put(h, st.res, Fresh(TsvNorm(pre, a.header_key))), "ok",
                   [wrote |-> "ok", hdr |-> ModelHdr, src_hdr |-> ModelHdr])
